@@ -14,6 +14,36 @@ type Renamer func(ssa.Value) string
 
 const MaxSCEVDepth = 100
 
+// MaxSCEVNodes bounds the size of the expression built for one value. SCEV expressions are
+// trees: a value that is used twice is expanded twice, so a chain y1 = y0+y0, y2 = y1+y1, ...
+// (a DAG with n nodes) would unfold into 2^n nodes that IsLoopInvariant, EvaluateAt and the
+// renderer then walk; a few hundred bytes of source could hang the analysis. A value whose
+// expansion would exceed the bound is kept opaque instead.
+const MaxSCEVNodes = 128
+
+// scevNodes returns the number of nodes of the expression tree rooted at s (saturating).
+func scevNodes(s SCEV) int {
+	const sat = 1 << 30
+	add := func(a, b int) int {
+		if a+b > sat {
+			return sat
+		}
+		return a + b
+	}
+	switch x := s.(type) {
+	case *SCEVGenericExpr:
+		if x.nodes == 0 {
+			x.nodes = add(1, add(scevNodes(x.X), scevNodes(x.Y)))
+		}
+		return x.nodes
+	case *SCEVAddRec:
+		return add(1, add(scevNodes(x.Start), scevNodes(x.Step)))
+	case *SCEVMax:
+		return add(1, add(scevNodes(x.X), scevNodes(x.Y)))
+	}
+	return 1
+}
+
 type SCEV interface {
 	ssa.Value
 	EvaluateAt(k *big.Int, cache map[SCEV]*big.Int) *big.Int
@@ -139,6 +169,8 @@ type SCEVGenericExpr struct {
 	Op token.Token
 	X  SCEV
 	Y  SCEV
+
+	nodes int // memo of scevNodes, 0 = not computed yet
 }
 
 func (s *SCEVGenericExpr) EvaluateAt(k *big.Int, cache map[SCEV]*big.Int) *big.Int {
@@ -712,6 +744,10 @@ func computeSCEVBody(v ssa.Value, loop *Loop, depth int) SCEV {
 	if binOp, ok := v.(*ssa.BinOp); ok {
 		left := computeSCEV(binOp.X, loop, depth+1)
 		right := computeSCEV(binOp.Y, loop, depth+1)
+		if scevNodes(left)+scevNodes(right)+1 > MaxSCEVNodes {
+			block := binOp.Block()
+			return &SCEVUnknown{Value: v, IsInvariant: block != nil && !loop.Blocks[block]}
+		}
 		return foldSCEV(binOp.Op, left, right, loop)
 	}
 	if instr, ok := v.(ssa.Instruction); ok {
